@@ -3,6 +3,7 @@ package types
 import (
 	"fmt"
 	"iter"
+	"maps"
 	"strings"
 
 	"github.com/elk-language/elk/bitfield"
@@ -273,8 +274,8 @@ func (m *Method) DeepCopyEnv(oldEnv, newEnv *GlobalEnvironment) *Method {
 		Flags:                        m.Flags,
 		Body:                         m.Body,
 		location:                     m.location,
-		UsedInConstants:              m.UsedInConstants,
-		UsedConstants:                m.UsedConstants,
+		UsedInConstants:              maps.Clone(m.UsedInConstants),
+		UsedConstants:                maps.Clone(m.UsedConstants),
 		InitialisedInstanceVariables: m.InitialisedInstanceVariables,
 		Node:                         m.Node,
 	}
